@@ -128,7 +128,12 @@ impl EventGen for Container {
                     break;
                 }
             }
-            if let (true, Some(text)) = (self.0.is_graphics_element(), &inner_text) {
+            // a <text> positioned by values svgdx does not compute with (coordinate
+            // lists, units, percentages) has no bounding box to anchor at: leave it alone
+            let opaque_text = self.0.name == "text" && matches!(self.0.bbox(), Ok(None));
+            if let (true, false, Some(text)) =
+                (self.0.is_graphics_element(), opaque_text, &inner_text)
+            {
                 let mut el = self.0.clone();
                 el.set_attr("text", text);
                 if let Some((start, _end)) = self.0.event_range {
